@@ -2,19 +2,51 @@ package main
 
 import (
 	"bytes"
-	"context"
 	"fmt"
-	"time"
 
 	"github.com/hedzr/logg/slog"
 )
 
+type reent struct {
+	l slog.Logger
+	s string
+}
+
+func (r reent) String() string {
+	r.l.Info("inner record", "ik", 1, slog.NewGroupedAttr("ig", slog.Int("m", 1)))
+	return r.s
+}
+
+type plain struct{ s string }
+
+func (r plain) String() string { return r.s }
+
 func main() {
-	ts := time.Date(2024, 3, 4, 5, 6, 7, 123456789, time.UTC)
-	for _, msg := range []string{"hello", "  lead", "a  b", "trail  ", "", "\nsecond", "a\nb\nc\n", "a\n\nb", "<b>x</b> y", "<b>x", "a & b", "x < y", "tab\there", "é"} {
-		var w bytes.Buffer
-		l := slog.New("lg").SetWriter(&w).SetErrorWriter(&w).SetLevel(slog.TraceLevel)
-		l.WriteThru(context.Background(), slog.InfoLevel, ts, 0, msg, slog.Attrs{slog.Int("i", 1)})
-		fmt.Printf("%q\n  -> %q\n", msg, slog.StripEscapes(w.String()))
+	slog.SetFlags(slog.LstdFlags | slog.LnoInterrupt)
+	for _, f := range []string{"json", "logfmt", "color"} {
+		for _, same := range []bool{false, true} {
+			var b1, b2, bi bytes.Buffer
+			mk := func(n string, b *bytes.Buffer) slog.Logger {
+				l := slog.New(n).SetWriter(b).SetErrorWriter(b).SetLevel(slog.AlwaysLevel)
+				switch f {
+				case "json":
+					l.SetJSONMode(true)
+				case "logfmt":
+					l.SetColorMode(false)
+				default:
+					l.SetColorMode(true)
+				}
+				return l
+			}
+			l1 := mk("o", &b1)
+			l2 := mk("o", &b2)
+			in := mk("in", &bi)
+			if same {
+				in = l1
+			}
+			l2.Info("outer", "a", 1, "v", plain{"val"}, slog.NewGroupedAttr("g", slog.Int("m", 1), slog.Any("w", plain{"val"})), "z", 2)
+			l1.Info("outer", "a", 1, "v", reent{in, "val"}, slog.NewGroupedAttr("g", slog.Int("m", 1), slog.Any("w", reent{in, "val"})), "z", 2)
+			fmt.Printf("%s same=%v\n ref %q\n got %q\n", f, same, b2.String(), b1.String())
+		}
 	}
 }
